@@ -137,6 +137,12 @@ def build(model, ranks=None, plain=False, default_resource_ids=False, share_id_o
             name=pj.get("name", pj["id"]), ID=pj["id"], facility_list=facs, max_space_size=pj.get("cap", 1.0)
         )
         wps.append(wp)
+    for i_, mj in enumerate(model.get("teams", [])):
+        if mj.get("parent") is not None:
+            teams[i_].set_parent_team(teams[mj["parent"]])
+    for i_, pj in enumerate(model.get("wps", [])):
+        if pj.get("parent") is not None:
+            wps[i_].set_parent_workplace(wps[pj["parent"]])
     # registration of targets: in the order the model asks for (default: teams then workplaces, each in list order);
     # the order decides the order of task.allocated_team_list / allocated_workplace_list
     reg = model.get("reg_order") or ([["team", i] for i in range(len(teams))] + [["wp", i] for i in range(len(wps))])
